@@ -152,10 +152,7 @@ Fixpoint typed_b (Γ : gmap string sty) (sh : option string) (rs : gset string) 
     if prov_b sh rs from then
       match whdb s with
       | Some (TLolli A B _) =>
-        match Γ !! ident cont with
-        | None => typed_b (<[ident pay := A]> Γ) (Some (ident cont)) (rs ∖ {[ident pay]} ∖ {[ident cont]}) B k
-        | Some _ => false
-        end
+        typed_b (<[ident pay := A]> (delete (ident cont) Γ)) (Some (ident cont)) (rs ∖ {[ident pay]} ∖ {[ident cont]}) B k
       | _ => false
       end
     else
@@ -248,10 +245,7 @@ Fixpoint typed_b (Γ : gmap string sty) (sh : option string) (rs : gset string) 
     if prov_b sh rs from then
       match whdb s with
       | Some (TUp _ _ A) =>
-        match Γ !! ident x with
-        | None => typed_b Γ (Some (ident x)) (rs ∖ {[ident x]}) A k
-        | Some _ => false
-        end
+        typed_b (delete (ident x) Γ) (Some (ident x)) (rs ∖ {[ident x]}) A k
       | _ => false
       end
     else
@@ -278,10 +272,7 @@ with typed_brs_p_b (Γ : gmap string sty) (rs : gset string) (bs : brs) (b : bra
     match find_br l bs with
     | Some A =>
       binder_b pay &&
-      match Γ !! ident pay with
-      | None => typed_b Γ (Some (ident pay)) (rs ∖ {[ident pay]}) A k
-      | Some _ => false
-      end && typed_brs_p_b Γ rs bs r
+      typed_b (delete (ident pay) Γ) (Some (ident pay)) (rs ∖ {[ident pay]}) A k && typed_brs_p_b Γ rs bs r
     | None => false
     end
   end
@@ -327,7 +318,6 @@ Proof.
     { intros E. rewrite E, String.eqb_refl in *. discriminate. }
     destruct (prov_b sh rs from) eqn:Ep.
     + destruct (whdb s) as [[]|] eqn:Ew; try discriminate.
-      destruct (Γ !! ident cont) eqn:Ef; [discriminate|].
       eapply T_RecvP; eauto using prov_b_sound, whdb_sound, binder_b_sound.
     + destruct (client_lookup Γ sh from) as [T|] eqn:Ec; [|discriminate].
       destruct (whdb T) as [[]|] eqn:Ew; try discriminate. bsplit.
@@ -388,7 +378,6 @@ Proof.
   - (* FShift *) intros x from k IH Γ sh rs s. simpl. intros H. bsplit.
     destruct (prov_b sh rs from) eqn:Ep.
     + destruct (whdb s) as [[]|] eqn:Ew; try discriminate.
-      destruct (Γ !! ident x) eqn:Ef; [discriminate|].
       eapply T_ShiftP; eauto using prov_b_sound, whdb_sound, binder_b_sound.
     + destruct (client_lookup Γ sh from) as [T|] eqn:Ec; [|discriminate].
       destruct (whdb T) as [[]|] eqn:Ew; try discriminate. bsplit.
@@ -401,7 +390,6 @@ Proof.
   - (* BrNil *) split; intros; constructor.
   - (* BrCons *) intros l pay k IHk r [IHp IHc]. split.
     + intros Γ rs bs. simpl. destruct (find_br l bs) as [A|] eqn:Ef; [|discriminate]. intros H. bsplit.
-      destruct (Γ !! ident pay) eqn:Eg; [discriminate|].
       eapply TBP_cons; eauto using binder_b_sound.
     + intros Γ sh rs s bs. simpl. destruct (find_br l bs) as [A|] eqn:Ef; [|discriminate]. intros H. bsplit.
       eapply TBC_cons; eauto using binder_b_sound.
